@@ -70,6 +70,10 @@ func runC10(c *eng.Ctx) {
 	ruleReadonlyVerdictIsRechecked(c)
 	c.Rule("R08.9", "K3")
 	ruleCompactedSegmentsArePublishedAsTheyAreReplaced(c)
+	c.Rule("R01.8", "K5")
+	ruleNoEntryAtOrBelowIsMinusOne(c)
+	c.Rule("R01.14", "K5")
+	ruleListIsFetchedAfterTheWait(c)
 	c.Rule("R09.9", "K5")
 	ruleReadPathSkipsDeletedSegments(c)
 	p := c.P
